@@ -9,11 +9,7 @@
 
    EXCLUDED by the hypothesis `swap_safe` (a decidable predicate on the annotated program):
    (1) an operator `>` or `<=`, both of whose operands are non-constant, where an operand contains a call or system call;
-   (2) a maximal constant sub-expression whose top operator is ~=, >=, > or <= (ConstProp folds it, OptimiseExpr then
-       rewrites it into run-time code over its un-optimised operands; meaning-preserving in fact, not proved here).
-   (3) unary minus applied to a non-constant operand (OptimiseExpr turns -x into 0 - x, which moves the evaluation of x
-       under XSem's operand-footprint bookkeeping; preserved in fact, not proved here);
-   (4) a call written as a system call with the number 4294967295 (xcmp reads it as a call of the procedure named "").
+   (2) a call written as a system call with the number 4294967295 (xcmp reads it as a call of the procedure named "").
    About (1):  OptimiseExpr swaps the
    operands of these two operators; XSem evaluates operands left to right and answers OrderDependent only for
    conflicting footprints, so the swap is meaning-preserving whenever XSem's footprints are sound (Bernstein) -- a
@@ -31,7 +27,7 @@ Definition st_eq (s t : state) : Prop := set_cur s eff0 = set_cur t eff0 /\ eff_
 Definition res_eq {A : Type} (R : A -> A -> Prop) (r r' : res A) : Prop :=
   match r, r' with
   | Ret a s, Ret a' t => R a a' /\ st_eq s t
-  | Halt c s, Halt c' t => c = c' /\ st_eq s t
+  | Halt c s, Halt c' t => c = c' /\ set_cur s eff0 = set_cur t eff0     (* the footprint of a halting state is never looked at *)
   | _, _ => False
   end.
 Definition ok {A : Type} (r : res A) : Prop := match r with Fail _ => False | _ => True end.
@@ -68,9 +64,8 @@ Fixpoint swap_safe (e : aexpr) : bool :=
   | ASub _ i => swap_safe i
   | ACall f id args => negb ((id =? -1) && String.eqb f "") && forallb swap_safe args
   | AUn _ (Some _) _ => true
-  | AUn Neg None _ => false
-  | AUn Not None a => swap_safe a
-  | ABin o (Some _) _ _ => negb (is_rw o)
+  | AUn _ None a => swap_safe a
+  | ABin o (Some _) _ _ => true
   | ABin o None l r =>
       swap_safe l && swap_safe r && match o with Gr | Le => swap_ok l r | _ => true end
   end.
